@@ -48,8 +48,9 @@ func init() { Register("C08", Domain{Gen: c08Gen, Run: c08Run}) }
 // ---- value trees (generator side) -------------------------------------------------------------
 
 type c08Val struct {
-	kind string // n T F i u f s t a m
+	kind string // n T F i u f s t a m   (f with s ∈ {NaN,+Inf,-Inf,-0}: a special float)
 	i    int64
+	u    uint64 // kind u
 	s    string
 	arr  []*c08Val
 	keys []string
@@ -60,7 +61,14 @@ func c08Render(v *c08Val) string {
 	switch v.kind {
 	case "n", "T", "F":
 		return v.kind
-	case "i", "u", "f", "t":
+	case "u":
+		return "u" + strconv.FormatUint(v.u, 10)
+	case "f":
+		if v.s != "" {
+			return "f" + v.s
+		}
+		return "f" + strconv.FormatInt(v.i, 10)
+	case "i", "t":
 		return v.kind + strconv.FormatInt(v.i, 10)
 	case "s":
 		return "'" + v.s + "'"
@@ -120,7 +128,7 @@ func c08Encode(b *bytes.Buffer, v *c08Val, rng *rand.Rand) {
 			_ = binary.Write(b, binary.BigEndian, n)
 		}
 	case "u": // unsigned family: uint8 / uint16 / uint32 / uint64
-		n := uint64(v.i)
+		n := v.u
 		opts := []int{64}
 		if n <= math.MaxUint32 {
 			opts = append(opts, 32)
@@ -146,7 +154,17 @@ func c08Encode(b *bytes.Buffer, v *c08Val, rng *rand.Rand) {
 		}
 	case "f": // quarters: exactly representable as float32 and float64
 		x := float64(v.i) / 4
-		if rng.Intn(2) == 0 {
+		switch v.s {
+		case "NaN":
+			x = math.NaN()
+		case "+Inf":
+			x = math.Inf(1)
+		case "-Inf":
+			x = math.Inf(-1)
+		case "-0":
+			x = math.Copysign(0, -1)
+		}
+		if rng.Intn(2) == 0 && (v.s != "" || float64(float32(x)) == x) && v.s != "NaN" {
 			b.WriteByte(0xca)
 			_ = binary.Write(b, binary.BigEndian, math.Float32bits(float32(x)))
 		} else {
@@ -206,9 +224,9 @@ func c08RenderDecoded(v any) string {
 	case uint64:
 		return "u" + strconv.FormatUint(x, 10)
 	case float32:
-		return "f" + strconv.FormatFloat(float64(x)*4, 'f', -1, 64)
+		return c08FloatText(float64(x))
 	case float64:
-		return "f" + strconv.FormatFloat(x*4, 'f', -1, 64)
+		return c08FloatText(x)
 	case string:
 		return "'" + x + "'"
 	case time.Time:
@@ -234,11 +252,36 @@ func c08RenderDecoded(v any) string {
 	return fmt.Sprintf("?%T", v)
 }
 
+// quarters as exact integer text (FormatFloat's shortest form rounds 2^55 to 16 digits)
+func c08FloatText(x float64) string {
+	q := x * 4
+	if q == math.Trunc(q) && math.Abs(q) < 1<<62 && !(q == 0 && math.Signbit(q)) {
+		return "f" + strconv.FormatInt(int64(q), 10)
+	}
+	return "f" + strconv.FormatFloat(q, 'f', -1, 64)
+}
+
 // ---- generator -------------------------------------------------------------------------------------
 
 var c08Strs = []string{"a", "b", "ab", "", "x1"}
 
+var c08BigInts = []int64{math.MaxInt64, math.MinInt64, 1 << 53, 1<<53 + 1, 1<<53 - 1, -1}
+var c08BigUints = []uint64{math.MaxUint64, 1 << 63, 1<<53 + 1, 1 << 53}
+
 func c08Scalar(rng *rand.Rand) *c08Val {
+	if rng.Intn(9) == 0 { // boundary scalars
+		switch rng.Intn(3) {
+		case 0:
+			return &c08Val{kind: "i", i: c08BigInts[rng.Intn(len(c08BigInts))]}
+		case 1:
+			return &c08Val{kind: "u", u: c08BigUints[rng.Intn(len(c08BigUints))]}
+		default:
+			if rng.Intn(2) == 0 {
+				return &c08Val{kind: "f", i: 1 << 55} // 2^53 as a float
+			}
+			return &c08Val{kind: "f", s: []string{"NaN", "+Inf", "-Inf", "-0"}[rng.Intn(4)]}
+		}
+	}
 	switch rng.Intn(16) {
 	case 0:
 		return &c08Val{kind: "n"}
@@ -249,7 +292,7 @@ func c08Scalar(rng *rand.Rand) *c08Val {
 	case 3, 4, 5, 6:
 		return &c08Val{kind: "i", i: int64(rng.Intn(9)) - 2}
 	case 7, 8:
-		return &c08Val{kind: "u", i: int64(rng.Intn(7))}
+		return &c08Val{kind: "u", u: uint64(rng.Intn(7))}
 	case 9, 10, 11:
 		// quarters 0..27: 0, 0.25 … 6.75  (5.75 ↔ "float 5.7 vs int 5")
 		return &c08Val{kind: "f", i: int64(rng.Intn(28))}
@@ -392,20 +435,49 @@ func c08CVFor(rng *rand.Rand, v *c08Val, op string) string {
 	case "i32in", "i64in":
 		n := int64(rng.Intn(6))
 		switch v.kind {
-		case "i", "u", "t":
+		case "i", "t":
 			n = v.i
+		case "u":
+			n = int64(v.u)
 		case "f":
 			n = v.i / 4
+		}
+		if op == "i32in" && (n > math.MaxInt32 || n < math.MinInt32) {
+			n = int64(int32(n))
 		}
 		alt := strconv.Itoa(rng.Intn(7))
 		return op[:3] + ":" + []string{strconv.FormatInt(n, 10) + ";" + alt, alt + ";" + strconv.FormatInt(n, 10), strconv.FormatInt(n, 10) + ";" + strconv.FormatInt(n, 10)}[rng.Intn(3)]
 	case "empty", "nempty":
 		return "-"
 	}
+	big := func(n int64) bool { return n > 1<<31 || n < -(1<<31) }
 	switch v.kind {
-	case "i", "u", "t":
+	case "u":
+		if v.u > 1<<31 {
+			// the same magnitude as u64, as (wrapping) i64, or as the float it rounds to
+			return []string{"u64:" + strconv.FormatUint(v.u, 10), "i64:" + strconv.FormatInt(int64(v.u), 10),
+				"f64:" + strconv.FormatFloat(float64(v.u)*4, 'f', 0, 64)}[rng.Intn(3)]
+		}
+		return num(int64(v.u), false)
+	case "i", "t":
+		if big(v.i) {
+			opts := []string{"i64:" + strconv.FormatInt(v.i, 10), "f64:" + strconv.FormatFloat(float64(v.i)*4, 'f', 0, 64)}
+			if v.i >= 0 {
+				opts = append(opts, "u64:"+strconv.FormatInt(v.i, 10))
+			} else {
+				opts = append(opts, "u64:18446744073709551615")
+			}
+			return opts[rng.Intn(len(opts))]
+		}
 		return num(v.i, false)
 	case "f":
+		if v.s != "" {
+			return []string{"i64:0", "f64:0", "i64:-9223372036854775808", "u64:9223372036854775808", "f64:4"}[rng.Intn(5)]
+		}
+		if big(v.i) {
+			return []string{"f64:" + strconv.FormatInt(v.i, 10), "i64:" + strconv.FormatInt(v.i/4, 10),
+				"i64:" + strconv.FormatInt(v.i/4+1, 10), "u64:" + strconv.FormatInt(v.i/4, 10)}[rng.Intn(4)]
+		}
 		return num(v.i, true)
 	case "s":
 		return "s:" + v.s
@@ -579,7 +651,7 @@ func c08Gen(rng *rand.Rand, tier string, w *bufio.Writer) {
 	// corpus 5: agreement on the sound fragment + mutation after the bucket was built
 	fmt.Fprintln(w, "case 5")
 	fixed("k1", 1, 0, 0, "{a:i1,b:'a'}", mk("a", I(1), "b", S("a")))
-	fixed("k2", 2, 0, 0, "{a:u1,b:'b'}", mk("a", &c08Val{kind: "u", i: 1}, "b", S("b")))
+	fixed("k2", 2, 0, 0, "{a:u1,b:'b'}", mk("a", &c08Val{kind: "u", u: 1}, "b", S("b")))
 	fixed("k3", 3, 0, 0, "{a:f4,b:'a'}", mk("a", Fq(4), "b", S("a")))
 	fmt.Fprintln(w, "q key desc 0 0 - - 0 &(a~eq~i64:1~,b~ne~s:b~)")
 	fixed("k2", 0, 0, 0, "{a:i2,b:'a'}", mk("a", I(2), "b", S("a")))
@@ -785,6 +857,22 @@ func c08ParseLeaf(s string) (*hydrapb.TreasureFilter, bool) {
 			v = hydrapb.Boolean_TRUE
 		}
 		f.CompareValue = &hydrapb.TreasureFilter_BoolVal{BoolVal: v}
+		return f, true
+	}
+	if tv[0] == "u64" {
+		u, err := strconv.ParseUint(tv[1], 10, 64)
+		if err != nil {
+			return nil, false
+		}
+		f.CompareValue = &hydrapb.TreasureFilter_Uint64Val{Uint64Val: u}
+		return f, true
+	}
+	if tv[0] == "f64" {
+		q, err := strconv.ParseFloat(tv[1], 64)
+		if err != nil {
+			return nil, false
+		}
+		f.CompareValue = &hydrapb.TreasureFilter_Float64Val{Float64Val: q / 4}
 		return f, true
 	}
 	n, err := strconv.ParseInt(tv[1], 10, 64)
